@@ -91,6 +91,7 @@ func genHs(seed uint64, tier string) KScenario {
 		sc.Token = r.Pick2("valid", "rebound", "expired", "truncated", "flipped", "otherkey")
 		sc.AgeS = int64(r.Pick(0, 1, 3600, 90000, 200000))
 		sc.VN = false
+		sc.Cfg.V6 = r.P(0.4)
 	}
 	if sc.Mode != "inject" && r.P(0.7) {
 		sc.Net.Drop = r.F() * 0.2
@@ -689,6 +690,13 @@ func runHs(t *testing.T, ksc KScenario, res *KResult) {
 		if sc.Token == "rebound" {
 			valid = false
 			addr := &net.UDPAddr{IP: net.IPv4(10, 0, 0, 99), Port: 4000}
+			if sc.Cfg.V6 {
+				// another host of the client's /64 (a token binds the address, not the prefix)
+				addr = &net.UDPAddr{IP: net.ParseIP("2001:db8:1:2:dead:beef:0:b"), Port: 4000}
+				if sc.Seed%3 == 0 {
+					addr = &net.UDPAddr{IP: net.ParseIP("2001:db8:9:9::a"), Port: 4000}
+				}
+			}
 			pc := simnet.NewBlockingSimConn(addr, w)
 			ctr = &quic.Transport{Conn: pc, ConnectionIDLength: sc.Cfg.ClientCIDLen}
 			extraTr, extraPC = append(extraTr, ctr), append(extraPC, pc)
